@@ -41,6 +41,13 @@ def gen_batch(r, bi, services=False, can=False, n_random=(6, 9), out_of_order=Tr
         ("d", 3, ("arr", ("str",), 2)),
         ("e", 4, ("arr", ("opt", ("u", 9)), 2)),
     ])
+    add(p + "Arr2", [
+        ("a", 0, ("arr", ("i", 16), 2)),
+        ("b", 1, ("arr", ("i", 16), r.choice([3, 4, 5]))),
+        ("c", 2, ("arr", ("arr", ("u", 8), 3), 2)),
+        ("d", 3, ("arr", ("arr", ("u", 8), 2), 3)),
+        ("e", 4, ("dyn", ("arr", ("i", 16), 3))),
+    ])
     add(p + "Dyn", [
         ("a", 0, ("u", 3)),
         ("b", 1, ("dyn", ("u", r.choice([1, 8, 13])))),
@@ -72,7 +79,8 @@ def gen_batch(r, bi, services=False, can=False, n_random=(6, 9), out_of_order=Tr
         ids = r.sample(range(1, 2047), 6)
         ids[r.randrange(6)] = 0  # boundary frame ids: 0 (falsy) and 2047 in every batch
         ids[next(i for i in range(6) if ids[i] != 0)] = 2047
-        buses = r.sample(["a", "pt", "can", "can0", "b1", "xy"], 3)
+        buses = r.sample(["a", "pt", "can", "can0", "b1", "xy"], 2)
+        buses.append(buses[0].upper() if buses[0].upper() != buses[0] else "Pt")  # a bus that differs only in letter case
         k = 0
         from .schema import Sch
 
